@@ -59,6 +59,9 @@ func init() {
 		Trusted:     []string{"golang.org/x/tools go/packages+go/ssa (v0.29.0), go/types", "libp2p crypto (Un)MarshalPrivateKey/Equals/Type, go-ipfs-keystore Get/Put/Has, aead/ecdh, x/crypto/hkdf behave as documented and are deterministic functions of their arguments unless they read crypto/rand"},
 		Assumptions: []string{"only module code is interpreted; one keystore per secret store; a key returned together with a nil error is usable"},
 		Floors:      map[string]int{"D1": 6, "D2": 6, "D3": 5, "D4": 3, "D5": 12, "D6": 2},
+		Borrows: []Borrow{
+			{From: "C10", Rules: []string{"D7"}, Why: "both sides derive the same keys only while each keeps its account and device keys: a read fault reported as 'no such key' makes the key store generate a new account key over the existing one, after which the contact's derivation no longer matches"},
+		},
 		Run:         runC11,
 	})
 }
